@@ -377,6 +377,78 @@ func run(c *Ctx) {
 			}
 		}
 	}
+	// error-message layout: the parser quotes the source line and marks a column in every message; the offending token, the
+	// amount and kind of white space after it, and the length of the lines around it all enter that arithmetic
+	// (positions relative to the previous token can be negative or beyond the line)
+	nerr := 0
+	longLine := func(n int) string {
+		var b strings.Builder
+		for i := 0; b.Len() < n; i++ {
+			fmt.Fprintf(&b, "v%d=f(%d,[%d],{%d:%d});", i, i, i, i, i)
+		}
+		return b.String()[:n]
+	}
+	gaps := []string{"\n", " ", "\t\t\t\t    \n", " \n", "\r\n", "\n\t"}
+	gapN := []int{0, 1, 5, 40, 79, 81, 90, 161, 200, 500}
+	lineN := []int{1, 50, 159, 160, 161, 216, 400, 2000}
+	if c.Thorough() {
+		gapN = append(gapN, 2, 80, 82, 160, 1000)
+		lineN = append(lineN, 80, 162, 321, 1000, 10000)
+	}
+	for oi, off := range []string{")", "]", "}", "@", ",", "=>", ":", "1 +", "x = (", "f(1,", "if", "func", "\"abc", "1 2", "a.", "[1:", "x ="} {
+		for gi, gp := range gaps {
+			for _, gn := range gapN {
+				for li, ln := range lineN {
+					if (c.Thorough() && (oi+gi+gn+li)%2 != 0) || (!c.Thorough() && (oi+gi+gn+li)%3 != 0) {
+						continue
+					}
+					for k, pre := range []string{"", longLine(ln) + "\n", "a = 1\n"} {
+						src := []byte(pre + off + strings.Repeat(gp, gn) + longLine(ln))
+						one(c, src, (k+li)%2 == 0, false, &st)
+						nerr++
+						if k == 0 {
+							// the offending token at the very end of a long line, and in the middle of one
+							one(c, []byte(longLine(ln)+strings.Repeat(gp, gn)+off), li%2 == 0, false, &st)
+							one(c, []byte(longLine(ln)+off+longLine(ln)+strings.Repeat(gp, gn)), li%2 == 1, false, &st)
+							nerr += 2
+						}
+					}
+				}
+			}
+		}
+	}
+	c.Dist["error-layout-inputs"] = nerr
+	// escapes cut short: every prefix of programs that use every escape form (incl. UTF-16 surrogate halves and pairs written
+	// with \u), and \u / \U / \x with every pair of leading hex digits cut after 0..4 digits, followed by nothing, a quote,
+	// another escape
+	nesc := 0
+	for _, p := range []string{"smile = \"\\ud83d\\ude00\"; println(smile)", "m = {\"flag\": \"\\ud83c\\uddeb\\ud83c\\uddf7\"}", "s = \"\\udc00\\ud800\" + \"\\uD83D\"", "x = \"\\U0001F600\\U0010FFFF\\U00110000\\UFFFFFFFF\"",
+		"y = \"\\x41\\xff\\x00\\377\\0\\18\" z", "`\\ud83d\\ude00` + \"\\u{1F600}\\u{D83D}\"", "f(\"\\a\\b\\f\\v\\r\\t\\'\\e\\?\", \"\\\n\")"} {
+		for k := 0; k <= len(p); k++ {
+			one(c, []byte(p[:k]), k%2 == 0, false, &st)
+			one(c, []byte(p[:k]), k%2 == 1, false, &st)
+			one(c, []byte(p[:k]+"\""), k%2 == 0, false, &st)
+			nesc += 3
+		}
+	}
+	const hexd = "0123456789abcdefABCDEF"
+	for i := 0; i < len(hexd); i++ {
+		for j := 0; j < len(hexd); j++ {
+			for _, esc := range []string{"\\u", "\\U", "\\x", "\\u{"} {
+				full := esc + string(hexd[i]) + string(hexd[j]) + "3d0001"
+				for k := len(esc); k <= len(full); k++ {
+					for ti, tail := range []string{"", "\"", "\\u", "\\ude00\"", "\\"} {
+						if !c.Thorough() && (i+j+k+ti)%2 != 0 {
+							continue
+						}
+						one(c, []byte("s = \""+full[:k]+tail), (i+j+k)%2 == 0, false, &st)
+						nesc++
+					}
+				}
+			}
+		}
+	}
+	c.Dist["escape-truncation-inputs"] = nesc
 	// the entry points in front of the parser: shebang scripts and their truncations, every byte after "#!", and a sample
 	// of the inputs above
 	for _, scr := range []string{"#!/usr/bin/env grol -s\nprintln(1)\n", "#!\n", "#! x = )\nf(", "#!grol\r\n[1,\n", "#\n!", "x\n#!y"} {
